@@ -91,7 +91,17 @@ func mkStream(r *rand.Rand, domain uint32, short bool, badAt int, badKind int) s
 					b, _ := refipfix.EncodeRecord(gen.Widths(pool), rec[0])
 					if len(b) > 1 {
 						// shorter than one record would be padding; make it one record plus a partial one
-						add(refipfix.BuildMessage(domain, seq, 1, tid, append(append([]byte{}, b...), b[:len(b)-1]...)), "bad:truncated-record")
+						body := append(append([]byte{}, b...), b[:len(b)-1]...)
+						if _, pad, okp, _ := refipfix.SplitRecords(body, gen.Widths(pool)); okp && pad > 0 {
+							// the partial record is shorter than the shortest record: that is set padding, which is
+							// only beyond dispute when it is zero (RFC 7011 3.3.2: SHOULD; a collector may insist)
+							for j := len(body) - pad; j < len(body); j++ {
+								body[j] = 0
+							}
+							add(refipfix.BuildMessage(domain, seq, 1, tid, body), "data+zero-padding")
+						} else {
+							add(refipfix.BuildMessage(domain, seq, 1, tid, body), "bad:truncated-record")
+						}
 					} else {
 						add(refipfix.BuildMessage(domain, seq, 1, tid+7, []byte{1}), "bad:unknown-template")
 					}
@@ -141,6 +151,7 @@ type expectation struct {
 	before   []mirror.Table
 	accepted int  // number of leading frames that must be delivered
 	closes   bool // the collector must close the connection by itself
+	open     bool // the next frame is one a collector may accept or refuse (data with non-zero leftover bytes): not judged from there on
 }
 
 func expect(streamBytes []byte) expectation {
@@ -158,8 +169,14 @@ func expect(streamBytes []byte) expectation {
 			} else {
 				dom := binary.BigEndian.Uint32(f[12:16])
 				if l, has := before[mirror.Key{Domain: dom, TID: setID}]; has {
-					_, _, okp, _ := refipfix.SplitRecords(f[20:], l.Widths)
+					_, pad, okp, _ := refipfix.SplitRecords(f[20:], l.Widths)
 					ok = okp
+					if okp && !refipfix.SameBody(f[len(f)-pad:], nil, pad+1) {
+						// leftover bytes that are not zero: padding SHOULD be zero (RFC 7011 3.3.2); accepting the
+						// message and refusing it (and closing) are both defensible: the verdict ends here
+						e.open = true
+						return e
+					}
 				}
 			}
 		}
@@ -421,7 +438,10 @@ func runCase(c *hx.Ctx, coll *lib.Coll, k int, r *rand.Rand, addr string, domain
 		fail("message-lost", fmt.Sprintf("%d of the %d messages the stream contains were delivered", len(got), exp.accepted))
 		return
 	}
-	if exp.closes {
+	if exp.open {
+		c.Add("streams_judged_up_to_a_frame_with_nonzero_leftover", 1)
+		conn.Close()
+	} else if exp.closes {
 		conn.SetReadDeadline(time.Now().Add(15 * time.Second))
 		var b [1]byte
 		_, err := conn.Read(b[:])
@@ -445,6 +465,9 @@ func runCase(c *hx.Ctx, coll *lib.Coll, k int, r *rand.Rand, addr string, domain
 		return
 	}
 	got = coll.Get(domain)
+	if exp.open && len(got) >= exp.accepted {
+		got = got[:exp.accepted]
+	}
 	if len(got) != exp.accepted {
 		fail("extra-delivery", fmt.Sprintf("%d messages delivered, the stream holds %d before its first undecodable message", len(got), exp.accepted))
 		return
